@@ -68,11 +68,21 @@ func (c *EvalCtx) coerce(v *Val, sort string) (*Val, error) {
 		}
 	case "NIL":
 		return &Val{T: c.e.reg.zero(sort), S: sort}, nil
+	case "NUMITE":
+		a, err := c.coerce(v.Tup[0], sort)
+		if err != nil {
+			return nil, err
+		}
+		b, err := c.coerce(v.Tup[1], sort)
+		if err != nil {
+			return nil, err
+		}
+		return &Val{T: ite(v.T, a.T, b.T), S: sort}, nil
 	}
 	return nil, fmt.Errorf("sort mismatch: have %s (%s), want %s", v.S, v.T, sort)
 }
 
-func isLit(v *Val) bool { return v.S == "NUM" || v.S == "NIL" || v.S == "NEGNUM" }
+func isLit(v *Val) bool { return v.S == "NUM" || v.S == "NIL" || v.S == "NEGNUM" || v.S == "NUMITE" }
 
 // unify coerces literal operands to the other side's sort.
 func (c *EvalCtx) unify(a, b *Val) (*Val, *Val, error) {
@@ -199,6 +209,10 @@ func (c *EvalCtx) eval(x *Expr) (*Val, error) {
 		b, err := c.eval(x.Args[2])
 		if err != nil {
 			return nil, err
+		}
+		if (a.S == "NUM" || a.S == "NEGNUM") && (b.S == "NUM" || b.S == "NEGNUM") {
+			// a choice between two numerals takes the sort of its context
+			return &Val{T: cd.T, S: "NUMITE", Tup: []*Val{a, b}}, nil
 		}
 		a, b, err = c.unify(a, b)
 		if err != nil {
@@ -855,7 +869,7 @@ func (c *EvalCtx) call(x *Expr) (*Val, error) {
 			return &Val{T: sel(c.e.heapGet(c.st, c.heap(), c.e.keyMapP(ks, vs)), a.T), S: arr(ks, sBool)}, nil
 		}
 		return &Val{T: sel(c.e.heapGet(c.st, c.heap(), c.e.keyMapV(ks, vs)), a.T), S: arr(ks, vs), Typ: types.NewArray(mt.Elem(), 0)}, nil
-	case "unboxStr", "unboxBytes", "unboxPtrBytes", "unboxPtrStr":
+	case "unboxStr", "unboxBytes", "unboxPtrBytes", "unboxPtrStr", "unboxPtrU64":
 		a, err := argv(0)
 		if err != nil {
 			return nil, err
@@ -870,9 +884,60 @@ func (c *EvalCtx) call(x *Expr) (*Val, error) {
 			return &Val{T: "(boxval_Bytes (i_ref " + a.T + "))", S: sBytes, Typ: types.NewSlice(types.Typ[types.Uint8])}, nil
 		case "unboxPtrBytes":
 			return &Val{T: "(i_ref " + a.T + ")", S: sInt, Typ: types.NewPointer(types.NewSlice(types.Typ[types.Uint8]))}, nil
+		case "unboxPtrU64":
+			return &Val{T: "(i_ref " + a.T + ")", S: sInt, Typ: types.NewPointer(types.Typ[types.Uint64])}, nil
 		default:
 			return &Val{T: "(i_ref " + a.T + ")", S: sInt, Typ: types.NewPointer(types.Typ[types.String])}, nil
 		}
+	case "addr":
+		// addr(name): the address of a local variable that lives in memory
+		if len(x.Args) == 1 && x.Args[0].Op == "ident" && c.fr != nil {
+			for _, fv := range c.fr.fn.FreeVars {
+				if fv.Name() == x.Args[0].S {
+					if v, ok := c.fr.env[fv]; ok {
+						return v, nil
+					}
+				}
+			}
+			for _, b := range c.fr.fn.Blocks {
+				for _, in := range b.Instrs {
+					if al, ok := in.(*ssa.Alloc); ok && al.Comment == x.Args[0].S {
+						if v, ok := c.fr.env[al]; ok {
+							return v, nil
+						}
+					}
+				}
+			}
+		}
+		return nil, fmt.Errorf("addr: no such local in memory")
+	case "refOf":
+		a, err := argv(0)
+		if err != nil {
+			return nil, err
+		}
+		switch a.S {
+		case sIface:
+			return &Val{T: "(i_ref " + a.T + ")", S: sInt}, nil
+		case sInt:
+			return a, nil
+		case sSlice:
+			return &Val{T: "(s_ref " + a.T + ")", S: sInt}, nil
+		}
+		return nil, fmt.Errorf("refOf of %s", a)
+	case "rowOf", "offOf":
+		a, err := argv(0)
+		if err != nil {
+			return nil, err
+		}
+		if a.S != sSlice || a.Typ == nil {
+			return nil, fmt.Errorf("%s of non-slice %s", x.S, a)
+		}
+		if x.S == "offOf" {
+			return &Val{T: "(s_off " + a.T + ")", S: sBV64}, nil
+		}
+		et := a.Typ.Underlying().(*types.Slice).Elem()
+		es := c.e.reg.sortOf(et)
+		return &Val{T: sel(c.e.heapGet(c.st, c.heap(), c.e.keyElem(es)), "(s_ref "+a.T+")"), S: arr(sBV64, es), Typ: types.NewArray(et, 0)}, nil
 	case "typeid":
 		// typeid(x): dynamic type tag of an interface value
 		a, err := argv(0)
